@@ -12,7 +12,15 @@ type xpathImpl struct {
 }
 
 func (xp xpathImpl) resolvePath(seg *xpath.Path, s *Selection) (*Selection, error) {
-	m := meta.Find(s.Meta().(meta.HasDefinitions), seg.Ident)
+	if seg == nil {
+		// path ends on a container or list item, which exists
+		return s, nil
+	}
+	parentMeta, hasDefs := s.Meta().(meta.HasDefinitions)
+	if !hasDefs {
+		return nil, fmt.Errorf("'%s' not found in xpath", seg.Ident)
+	}
+	m := meta.Find(parentMeta, seg.Ident)
 	if m == nil {
 		return nil, fmt.Errorf("'%s' not found in xpath", seg.Ident)
 	}
@@ -56,15 +64,23 @@ func (xp xpathImpl) resolvePath(seg *xpath.Path, s *Selection) (*Selection, erro
 		}
 		return s, nil
 	}
-	panic("type not supported " + m.Ident())
+	return nil, fmt.Errorf("'%s' cannot be used in xpath", m.Ident())
 }
 
 func (xp xpathImpl) resolveExpression(name string, e xpath.Expression, sel *Selection) (bool, error) {
 	switch x := e.(type) {
 	case *xpath.Operator:
 		return xp.resolveOperator(x, name, sel)
+	case nil:
+		// no comparison, true when the leaf has a value
+		found, err := sel.Find(name)
+		if err != nil || found == nil {
+			return false, err
+		}
+		v, err := found.Get()
+		return v != nil, err
 	}
-	panic("unknown xpath expression")
+	return false, fmt.Errorf("unsupported xpath expression %T", e)
 }
 
 func (xp xpathImpl) resolveOperator(oper *xpath.Operator, ident string, s *Selection) (bool, error) {
@@ -72,7 +88,11 @@ func (xp xpathImpl) resolveOperator(oper *xpath.Operator, ident string, s *Selec
 	if m == nil {
 		return false, fmt.Errorf("'%s' not found in xpath", ident)
 	}
-	b, err := NewValue(m.(meta.HasType).Type(), oper.Lhs)
+	typed, hasType := m.(meta.HasType)
+	if !hasType {
+		return false, fmt.Errorf("'%s' is not a leaf and cannot be compared in xpath", ident)
+	}
+	b, err := NewValue(typed.Type(), oper.Lhs)
 	if err != nil {
 		return false, err
 	}
@@ -90,7 +110,13 @@ func (xp xpathImpl) resolveOperator(oper *xpath.Operator, ident string, s *Selec
 	case "!=":
 		return !val.Equal(a, b), nil
 	default:
-		c := a.(val.Comparable).Compare(b.(val.Comparable))
+		ca, aOk := a.(val.Comparable)
+		cb, bOk := b.(val.Comparable)
+		if !aOk || !bOk {
+			// leaf has no value, or the type has no order
+			return false, nil
+		}
+		c := ca.Compare(cb)
 		switch oper.Oper {
 		case "<":
 			return c < 0, nil
@@ -102,7 +128,7 @@ func (xp xpathImpl) resolveOperator(oper *xpath.Operator, ident string, s *Selec
 			return c <= 0, nil
 		}
 	}
-	panic("unrecognized operator: " + oper.Oper)
+	return false, fmt.Errorf("unrecognized xpath operator %s", oper.Oper)
 }
 
 func (xp xpathImpl) resolveAbsolutePath(s *Selection) (*Selection, error) {
